@@ -50,7 +50,7 @@ def run(ctx):
     # ... and MSQueue (pointer-valued words: kind of access, CAS outcome, null / non-null)
     keepm = lambda r: r.get('fn', '').startswith('michael_scott_queue::') and 'node::' not in r.get('fn', '')
     for rc in (['nebr0'] if q else ['nebr0', 'hp3', 'stamp']):
-        step_bind(ctx, 'MSQueue', 'queue_ms', ['ms/%s/I;;push1,push2,pop;pop,push3' % rc], queue_models.ms_consts(NNodes=7, MaxPush=2, MaxPop=2), pb=2, max_exec=40 if q else 1500, keep=keepm)
+        step_bind(ctx, 'MSQueue', 'queue_ms', ['ms/%s/I;;push1,push2,pop;pop,push3' % rc], queue_models.ms_consts(NNodes=7, MaxPush=2, MaxPop=2), pb=2, max_exec=15 if q else 1500, keep=keepm)
     for r in ctx.tv[:3]:
         ctx.samples.append({'driver': r['driver'], 'history': canonical_sample(execution_lines(r['trace'], 2), 60)})
     return finish(ctx,
